@@ -7,15 +7,17 @@ use noodles_cram as cram;
 use noodles_sam as sam;
 use tokio::io::{self, AsyncRead, BufReader};
 
+use super::builder::Source;
+
 pub(super) enum Inner<R>
 where
     R: AsyncRead,
 {
-    Sam(sam::r#async::io::Reader<BufReader<R>>),
-    SamGz(sam::r#async::io::Reader<bgzf::r#async::io::Reader<BufReader<R>>>),
-    Bam(bam::r#async::io::Reader<bgzf::r#async::io::Reader<BufReader<R>>>),
-    BamRaw(bam::r#async::io::Reader<BufReader<R>>),
-    Cram(cram::r#async::io::Reader<BufReader<R>>),
+    Sam(sam::r#async::io::Reader<BufReader<Source<R>>>),
+    SamGz(sam::r#async::io::Reader<bgzf::r#async::io::Reader<BufReader<Source<R>>>>),
+    Bam(bam::r#async::io::Reader<bgzf::r#async::io::Reader<BufReader<Source<R>>>>),
+    BamRaw(bam::r#async::io::Reader<BufReader<Source<R>>>),
+    Cram(cram::r#async::io::Reader<BufReader<Source<R>>>),
 }
 
 impl<R> Inner<R>
